@@ -59,14 +59,19 @@ def o_is_prime(n):
 
 
 def o_factor(n):
-    """prime factors of n by trial division (caller keeps n small) """
-    f = []; d = 2
-    while d * d <= n:
+    """prime factors of n: trial division; a cofactor >= 2^32 is first tested with o_is_prime (group orders of cryptographic size are prime or have
+    one large prime cofactor; the caller keeps other n small)"""
+    f = []; d = 2; tested = None
+    while n > 1:
+        if n >= 1 << 32 and tested != n:
+            tested = n
+            if o_is_prime(n): f.append(n); break
+        if d * d > n: f.append(n); break
         if n % d == 0:
             f.append(d)
             while n % d == 0: n //= d
-        d += 1
-    if n > 1: f.append(n)
+        else:
+            d += 1
     return f
 
 
@@ -1530,7 +1535,7 @@ def in_hc_laws(spec):
             for b in els:
                 for c in els[:4] if not small else els: yield (spec, a, b, c)
         big = lambda: ('g', rnd.choice([rnd.getrandbits(200), rnd.getrandbits(40), -rnd.getrandbits(70)]))
-        for _ in range(T(tier, 20, 300)):
+        for _ in range(T(tier, 20, 100 if dict(spec).get('l', 0) >= 256 else 300)):
             a, b, c = big(), big(), big()
             yield (spec, a, b, c)
             yield (spec, a, ('gg', a[1] - 5, 5), c)           # equal elements reached differently
@@ -1585,7 +1590,7 @@ for _spec in HC_SPECS + HC_SPECS_TH:
     _th = _spec in HC_SPECS_TH
     _lst = [
         Native(f'hc_laws:{_s}', _f + ' operation/operation2/inversion', call_hc_laws, ck_hc_laws, in_hc_laws(_spec),
-               'a, b, c generator powers (small exponents: all triples; random exponents up to 200 bits; equal / inverse operands; encoded degree-1 divisors for affine coordinates): '
+               'a, b, c generator powers (small exponents: all triples; 20 random triples with exponents up to 200 bits (thorough 300, 100 for l >= 256); equal / inverse operands): '
                'results in the Jacobian (own polynomial arithmetic), associativity, commutativity, identity, inverses, doubling 3 ways, equality/hash, operator aliases'),
         Native(f'hc_repeat:{_s}', _f + ' repeat', call_hc_repeat, ck_hc_repeat, in_hc_repeat(_spec),
                'a^n for 2 (thorough 3) elements, n = -20..40 and large / patterned n: equals n-fold application with the real operation / inversion'),
@@ -1932,7 +1937,7 @@ def in_cl_laws(kind):
                 for c in (els[1], els[-1], els[4])[:T(tier, 2, 3)]: yield (spec, a, b, c)
         F = _cl_small_forms(D, 40)
         big = lambda: rnd.choice([('g', rnd.getrandbits(rnd.choice((8, 40, 200)))), ('g', -rnd.getrandbits(30)), rnd.choice(F)])
-        for _ in range(T(tier, 12, 400)):
+        for _ in range(T(tier, 12, 400 if D.bit_length() <= 128 else 120 if D.bit_length() <= 512 else 40)):
             a, b, c = big(), big(), big()
             yield (spec, a, b, c); yield (spec, a, a, c)
             if a[0] == 'g': yield (spec, a, ('g', -a[1]), c)
@@ -1959,8 +1964,9 @@ def in_cl_codec(tier):
     for spec in _cl_specs(tier):
         G = _cl(spec); D, gap = G.discriminant, G.gap
         top = int(math.isqrt(-D) / 2) // gap - 1
-        ms = {top + 1, top + 2} | ({m for m in list(range(0, T(tier, 40, 400))) + [top, top - 1, top // 2] if 0 <= m <= top}) | \
-            ({rnd.randrange(top + 1) for _ in range(T(tier, 20, 200))} if top >= 0 else set())
+        big = D.bit_length() > 256
+        ms = {top + 1, top + 2} | ({m for m in list(range(0, T(tier, 40, 100 if big else 400))) + [top, top - 1, top // 2] if 0 <= m <= top}) | \
+            ({rnd.randrange(top + 1) for _ in range(T(tier, 20, 50 if big else 200))} if top >= 0 else set())
         for m in sorted(ms): yield (spec, m)
 
 
@@ -1984,7 +1990,7 @@ CL_NATIVES = [
 ] + [
     Native(f'cl_laws:{_k}', 'mpyc.fingroups.ClassGroupForm', call_cl_laws, ck_cl_laws, in_cl_laws(_k[0]),
            ('14 (thorough 30) explicit discriminants' if _k == 'D' else '11 bit lengths 2..256 (thorough 33, up to 2048)') + ': generator powers and forms with small first coefficient, small sets '
-           'exhaustively, random ones (exponents up to 200 bits), equal / inverse operands: all group axioms, equality, hash, operator aliases against own composition')
+           'exhaustively, 12 random triples per parameter set (thorough 400; 120 above 128 bits, 40 above 512 bits; exponents up to 200 bits), equal / inverse operands: all group axioms, equality, hash, operator aliases against own composition')
     for _k in ('D', 'l')] + [
     Native(f'cl_repeat:{_k}', 'mpyc.fingroups.ClassGroupForm repeat', call_cl_repeat, ck_cl_repeat, in_cl_repeat(_k[0]),
            ('14 (thorough 30) explicit discriminants' if _k == 'D' else '11 bit lengths 2..256 (thorough 33, up to 2048)') + ' x 3 (4) forms x n = -20..40 and large / patterned n: equals n-fold '
@@ -1998,7 +2004,7 @@ CL_NATIVES = [
     # is the identity ("trivial generator") when D != 1 mod 8, e.g. ClassGroup(Delta=-83): order 3, generator (1, 1, 21).  "The generator has the declared
     # order" therefore reads generator^order = identity wherever an order is declared: cl_generator above.
     Native('cl_codec', 'mpyc.fingroups.ClassGroupForm.encode/decode', call_cl_codec, ck_cl_codec, in_cl_codec,
-           'every parameter set: m = 0..39 (399), boundary of (m+1) gap <= sqrt(|D|)/2 (AssertionError beyond, as documented), random m: decode(encode(m)) == m, encoded forms reduced, '
+           'every parameter set: m = 0..39 (thorough 0..399, 0..99 above 256 bits), boundary of (m+1) gap <= sqrt(|D|)/2 (AssertionError beyond, as documented), random m: decode(encode(m)) == m, encoded forms reduced, '
            'ValueError only when no encoding exists'),
     Native('cl_ctor', 'mpyc.fingroups.ClassGroupForm.__init__', call_cl_ctor, ck_cl_ctor, in_cl_ctor,
            '9 discriminants: (a, b) and (a, b, c) with -2 <= a < 14, |b| <= 14 (thorough 40), transformed (non-reduced) forms: ValueError exactly for invalid forms, else the own reduced form'),
